@@ -190,7 +190,7 @@ func TestVerifC07_ProcFilter(t *testing.T) {
 func TestVerifC07_ProcInteractive(t *testing.T) {
 	rapid.Check(t, func(t *rapid.T) {
 		n := rapid.SampledFrom([]int{0, 1, 2, 6, 15}).Draw(t, "n")
-		words := []string{"ab,,c", "x>,y=", " beta,y  2 ", "e:,,:f", "alpha,x 1", "a b,z,w", "é漢,q", "tail,", ",lead", "one", "b a,b a", "last,item 9"}
+		words := []string{"ab,,c", "x>,y=", "wide é " + strings.Repeat("élément-", 12) + ",end", " beta,y  2 ", "e:,,:f", "alpha,x 1", "a b,z,w", "é漢,q", "tail,", ",lead", "one", "b a,b a", "last,item 9"}
 		// the delimiter is a literal string of one or two characters; the lines also
 		// contain its characters on their own
 		fieldSep := rapid.SampledFrom([]string{",", ",", "=>", "::"}).Draw(t, "fieldSep")
